@@ -110,7 +110,7 @@ func runScripted(c *kit.Ctx) {
 }
 
 func runChains(c *kit.Ctx) {
-	n := c.N(32, 1600)
+	n := c.N(32, 900)
 	for i := 0; i < n; i++ {
 		id := fmt.Sprintf("cv%d", i)
 		if !c.Mine(i, id) {
